@@ -233,9 +233,9 @@ SF_ASSUME = ["reference encoder/expected tree written from the sFlow v5 specific
 def c07(tier):
     t0 = time.time()
     b = build("sflowc")
-    res = [run_space(b, sp, tier) for sp in ["sflow.seq", "sflow.flowrec", "sflow.counterrec", "sflow.onehot", "sflow.frames", "sflow.hdrlen"]]
+    res = [run_space(b, sp, tier) for sp in ["sflow.seq", "sflow.flowrec", "sflow.counterrec", "sflow.onehot", "sflow.frames", "sflow.hdrlen", "sflow.counts"]]
     return finish("C07", tier, res,
-                  rule="seq: every sample sequence of length 0..3 over a 14-sample alphabet (flow samples with raw/ext-switch/ext-router/unknown records, counter samples with all six counter blocks and unknown records, unknown sample formats 3/4/5, a vendor sample) x IPv4/IPv6 agent; flowrec/counterrec: every ordered selection of <=3 distinct record types (flowrec x all 27 frame shapes); onehot: every field of every record, sample header and datagram header all-ones alone; frames: 27 frame shapes (Ethernet/802.1Q/raw IPv4/raw IPv6 x IPv4, IPv4+options, IPv6 x TCP/UDP/ICMP) x every L2/L3/L4 field all-ones alone; hdrlen: six frame shapes x every sampled header length up to 1500 (XDR padding 0..3). Non-trivial = every case; distinct = wire octets.",
+                  rule="seq: every sample sequence of length 0..3 over a 14-sample alphabet (flow samples with raw/ext-switch/ext-router/unknown records, counter samples with all six counter blocks and unknown records, unknown sample formats 3/4/5, a vendor sample) x IPv4/IPv6 agent; flowrec/counterrec: every ordered selection of <=3 distinct record types (flowrec x all 27 frame shapes); onehot: every field of every record, sample header and datagram header all-ones alone; frames: 27 frame shapes (Ethernet/802.1Q/raw IPv4/raw IPv6 x IPv4, IPv4+options, IPv6 x TCP/UDP/ICMP) x every L2/L3/L4 field all-ones alone; hdrlen: six frame shapes x every sampled header length up to 1500 (XDR padding 0..3); counts: N samples in one datagram (the same sample of the alphabet repeated, and cycling through the alphabet) and N unsupported records in front of a supported one, N in {1..4, 7..9, 15..18, 31..33, 63..65, 100, 127..129, 255..257, 400} (thorough: every N up to 420) as far as 60000 octets allow. Non-trivial = every case; distinct = wire octets.",
                   assumptions=SF_ASSUME, t0=t0)
 
 
@@ -263,7 +263,7 @@ def c05(tier):
     bf, b5, bs = build("flow"), build("nf5"), build("sflowc")
     res = []
     for p in ("ipfix", "v9"):
-        for sp in ("json.pos", "json.pairs", "json.shape", "json.mixed") + (("json.triples",) if tier == "thorough" else ()):
+        for sp in ("json.pos", "json.pairs", "json.shape", "json.mixed", "json.counts") + (("json.triples",) if tier == "thorough" else ()):
             res.append(run_space(bf, p + "." + sp, tier))
     r5 = run_space(b5, "v5.rec", tier)
     r5.viol = [v for v in r5.viol if v["sig"].startswith("v5:json")]  # field mapping itself is C08's
@@ -271,7 +271,7 @@ def c05(tier):
     for sp in ("sflow.seq", "sflow.onehot", "sflow.frames"):
         res.append(run_space(bs, sp, tier))
     return finish("C05", tier, res,
-                  rule="IPFIX/v9: a value alphabet aimed at the encoder (strings with each of the 32 control characters, quote, backslash, slash, DEL, U+2028, 2/3/4-byte UTF-8, four kinds of invalid UTF-8, empty, HTML, 300 octets, JSON-looking; float32/64: +-0, +-Inf, quiet/signalling NaN, min/max denormal, max finite, 1e21, 1e-7, 0.1; booleans from octets 0,1,2,255; every integer width at 0/1/max/min; MAC, IPv4, IPv6 (::, ::1, v4-mapped, v4-compatible, all-ones); octet arrays of 0..3; reduced-size encodings; enterprise numbers 1, 29305, 2^32-1) "
+                  rule="IPFIX/v9: a value alphabet aimed at the encoder (strings with each of the 32 control characters, quote, backslash, slash, DEL, U+2028, 2/3/4-byte UTF-8, four kinds of invalid UTF-8, empty, HTML, 300 octets, JSON-looking; float32/64: +-0, +-Inf, quiet/signalling NaN, min/max denormal, max finite, 1e21, 1e-7, 0.1; booleans from octets 0,1,2,255; every integer width at 0/1/max/min; MAC, IPv4, IPv6 (::, ::1, v4-mapped, v4-compatible, all-ones); octet arrays of 0..3; reduced-size encodings; enterprise numbers 1, 29305, 2^32-1); json.counts: size instead of shape - N records, N fields per record, one string / octet-array value of L octets, N and L around every power of two from 2 to 32768 and 1000, 60000 (as far as 65000 octets allow); "
                        "placed first/middle/last/alone in a record, as scope or option field, from 4 exporter address forms; every ordered PAIR of values in one record; 1..3 sets x 1..3 records x 1..3 fields; data sets of two templates with different field counts interleaved in one message (AB, BA, ABA, BAB). v5: the C08 space, JSON oracle only. sFlow: the C07 sequence, one-hot and frame spaces (published JSON compared with the reference tree). "
                        "Oracle: json.Valid, valid UTF-8, single document, exact key sets, integers as exact decimals, floats bit-exact after ParseFloat (non-finite: any string naming the class), strings equal up to U+FFFD substitution, addresses canonical and parsing back to the same octets, 0x-hex octet arrays. Non-trivial = every case; distinct = wire octets x exporter.",
                   assumptions=FLOW_ASSUME + SF_ASSUME + ["a JSONMarshal error on a decodable message is reported here too (nothing valid can be published for it)"], t0=t0)
